@@ -656,6 +656,13 @@ package generator
 // declaration still under construction), otherwise the first suffixed name that
 // no declaration — finished or under construction — holds (C14: distinct schema
 // types get distinct type names).
+//@ func (*output).isUniqueTypeName
+//@   props C14 C20 C01
+//@   option verify-only
+//@   shape o = decls() | decls(T) | decls(T?) | decls(X)
+//@   shape name = "T"
+//@   assigns nothing
+//@   ensures [C14,C20,C01] free-or-under-construction: result <==> (!map_has(o.declsByName, "T") || o.declsByName["T"].Type == nil)
 //@ func (*output).uniqueTypeName
 //@   props C14 C20 C01
 //@   shape o = decls() | decls(T) | decls(T?) | decls(T,T_1) | decls(T,T_1?) | decls(T,T_1,T_2?) | decls(X)
